@@ -58,7 +58,7 @@ S0 == [O |-> O, H |-> H]      \* the current state as a value (the effects below
 
 NewObj(k, i, par) ==
   [k |-> k, i |-> i, alive |-> TRUE, dc |-> 0, refs |-> TRUE, ring |-> <<>>, par |-> par,
-   bytes |-> 0, bi |-> 0, psz |-> 0, back |-> 0, grp |-> 0]
+   bytes |-> 0, mx |-> 0, bi |-> 0, psz |-> 0, back |-> 0, grp |-> 0]
 
 Ids(st) == DOMAIN st.O
 OfKind(st, k) == {o \in Ids(st) : st.O[o].k = k}
@@ -123,29 +123,37 @@ Reserved(st, p) == Cardinality({st.O[m].grp : m \in Views(st, p)})
 DeviceOf(st, o) == IF st.O[o].k = "device" THEN o
                    ELSE IF st.O[st.O[o].par].k = "device" THEN st.O[o].par
                    ELSE st.O[st.O[o].par].par
-\* replace the backing buffer by one of n cells (modeMemoryPool_t::resize)
+Acct(st, d) ==
+  LET bs == {b \in Ids(st) : st.O[b].alive /\ st.O[b].k = "buffer" /\ DeviceOf(st, b) = d}
+      RECURSIVE Sum(_)
+      Sum(S) == IF S = {} THEN 0 ELSE LET x == CHOOSE x \in S : TRUE IN st.O[x].bytes + Sum(S \ {x})
+  IN Sum(bs)
+Max(a, b) == IF a >= b THEN a ELSE b
+\* maxBytesAllocated is raised where bytesAllocated is raised: in device::malloc and when a pool allocates a new buffer
+RaiseMax(st, d, v) == [st EXCEPT !.O[d].mx = Max(@, v)]
+\* replace the backing buffer by one of n cells (modeMemoryPool_t::reallocate): with live reservations the new buffer
+\* is allocated before the old one is released (both are counted for a moment), otherwise after
 Rebuffer(st, p, n) ==
-  LET b   == Len(st.O) + 1
-      nb  == [NewObj("buffer", NextIdx(st, "buffer"), p) EXCEPT !.bytes = n * CellBytes]
-      old == st.O[p].back
-      st1 == [st EXCEPT !.O = Append(st.O, nb)]
-      st2 == IF old = 0 THEN st1 ELSE Kill(st1, {old})
-  IN [st2 EXCEPT !.O[p].back = b, !.O[p].psz = n]
+  LET b    == Len(st.O) + 1
+      nb   == [NewObj("buffer", NextIdx(st, "buffer"), p) EXCEPT !.bytes = n * CellBytes]
+      old  == st.O[p].back
+      d    == DeviceOf(st, p)
+      oldB == IF old = 0 THEN 0 ELSE st.O[old].bytes
+      peak == IF Views(st, p) # {} THEN Acct(st, d) + n * CellBytes ELSE Acct(st, d) - oldB + n * CellBytes
+      st1  == [st EXCEPT !.O = Append(st.O, nb)]
+      st2  == IF old = 0 THEN st1 ELSE Kill(st1, {old})
+  IN RaiseMax([st2 EXCEPT !.O[p].back = b, !.O[p].psz = n], d, peak)
 
 ---------------------------------------------------------------------------
 (* Observation: what the replayer can see after a step.
      Hd : per handle variable  -1 out of scope, 0 not initialized, else index of the object among its kind
      L  : live objects per kind (KindSeq order; pools count as buffers too)
      D  : per kind, how often each object (by index) was destroyed
-     A  : per handle variable, memoryAllocated() when it is an initialized device handle, else 0 *)
+     A  : per handle variable, memoryAllocated() when it is an initialized device handle, else 0
+     M  : the same for maxMemoryAllocated() *)
 IdxObj(st, k, j) ==
   CHOOSE o \in Ids(st) : \/ (st.O[o].k = k /\ st.O[o].i = j)
                          \/ (k = "buffer" /\ st.O[o].k = "pool" /\ st.O[o].bi = j)
-Acct(st, d) ==
-  LET bs == {b \in Ids(st) : st.O[b].alive /\ st.O[b].k = "buffer" /\ DeviceOf(st, b) = d}
-      RECURSIVE Sum(_)
-      Sum(S) == IF S = {} THEN 0 ELSE LET x == CHOOSE x \in S : TRUE IN st.O[x].bytes + Sum(S \ {x})
-  IN Sum(bs)
 Obs(st) ==
   [Hd |-> NormSeq([j \in 1..Len(SlotSeq) |->
              LET h == st.H[SlotSeq[j]] IN
@@ -157,7 +165,10 @@ Obs(st) ==
              NormSeq([j \in 1..(NextIdx(st, KindSeq[x]) - 1) |-> st.O[IdxObj(st, KindSeq[x], j)].dc])]),
    A  |-> NormSeq([j \in 1..Len(SlotSeq) |->
              LET h == st.H[SlotSeq[j]] IN
-             IF h.in /\ h.ref # 0 /\ KindOf(SlotSeq[j]) = "device" THEN Acct(st, h.ref) ELSE 0])]
+             IF h.in /\ h.ref # 0 /\ KindOf(SlotSeq[j]) = "device" THEN Acct(st, h.ref) ELSE 0]),
+   M  |-> NormSeq([j \in 1..Len(SlotSeq) |->
+             LET h == st.H[SlotSeq[j]] IN
+             IF h.in /\ h.ref # 0 /\ KindOf(SlotSeq[j]) = "device" THEN st.O[h.ref].mx ELSE 0])]
 
 \* end of the enclosing block: every variable still in scope is destroyed, in SlotSeq order
 RECURSIVE ExitFrom(_, _)
@@ -245,11 +256,13 @@ MallocEff(st, s, dev, bytes) ==
   LET b  == Len(st.O) + 1
       ob == [NewObj("buffer", NextIdx(st, "buffer"), dev) EXCEPT !.bytes = bytes]
       om == [NewObj("memory", NextIdx(st, "memory"), b) EXCEPT !.ring = <<s>>]
-  IN [O |-> st.O \o <<ob, om>>, H |-> [st.H EXCEPT ![s] = [in |-> TRUE, ref |-> b + 1]]]
-Malloc(s, d) ==
+      st1 == [O |-> st.O \o <<ob, om>>, H |-> [st.H EXCEPT ![s] = [in |-> TRUE, ref |-> b + 1]]]
+  IN RaiseMax(st1, dev, Acct(st1, dev))
+\* v = 1: with the memory property use_host_pointer but without a source pointer -- an ordinary allocation
+Malloc(s, d, v) ==
   /\ ~In(s) /\ KindOf(s) = "memory" /\ In(d) /\ KindOf(d) = "device" /\ Room(2)
-  /\ IF DevOf(d) = 0 THEN Failed(Rec("malloc", s, d, 0))
-     ELSE Commit(MallocEff(S0, s, DevOf(d), BufBytes), Rec("malloc", s, d, 0), FALSE, {})
+  /\ IF DevOf(d) = 0 THEN Failed(Rec("malloc", s, d, v))
+     ELSE Commit(MallocEff(S0, s, DevOf(d), BufBytes), Rec("malloc", s, d, v), FALSE, {})
 Wrap(s, d) ==
   /\ ~In(s) /\ KindOf(s) = "memory" /\ In(d) /\ KindOf(d) = "device" /\ Room(2)
   /\ IF DevOf(d) = 0 THEN Failed(Rec("wrap", s, d, 0))
@@ -341,7 +354,7 @@ DoFree == Busy /\ \E s \in Use : Free(s)
 DoScopeExit == Busy /\ \E s \in Use : ScopeExit(s)
 DoDontUseRefs == Busy /\ \E s \in Use : DontUseRefs(s)
 DoNewDevice == Busy /\ \E s \in UseK("device") : NewDevice(s)
-DoMalloc == Busy /\ \E s \in UseK("memory"), t \in UseK("device") : Malloc(s, t)
+DoMalloc == Busy /\ \E s \in UseK("memory"), t \in UseK("device") : \E v \in 0..1 : Malloc(s, t, v)
 DoWrap == Busy /\ \E s \in UseK("memory"), t \in UseK("device") : Wrap(s, t)
 DoSlice == Busy /\ \E s, t \in UseK("memory") : Slice(s, t)
 DoNewPool == Busy /\ \E s \in UseK("pool"), t \in UseK("device") : NewPool(s, t)
@@ -423,6 +436,9 @@ QuiescentNoLeak ==
 \* accounted memory belongs to live buffers only (so: nothing alive => nothing accounted)
 AcctOnlyLive == \A d \in DOMAIN O : (O[d].k = "device" /\ O[d].alive /\ Acct(S0, d) > 0) =>
                    \E b \in DOMAIN O : O[b].alive /\ O[b].k = "buffer" /\ O[b].bytes > 0
+
+\* maxMemoryAllocated() is never below memoryAllocated()
+MaxAboveAcct == \A d \in DOMAIN O : (O[d].k = "device" /\ O[d].alive) => O[d].mx >= Acct(S0, d)
 
 \* an object dies only at free(), with its owner, with its last view, or when its last handle gives up its reference
 NewlyDead == {o \in DOMAIN O : O[o].alive /\ ~O'[o].alive}
